@@ -78,7 +78,7 @@ TSumBad == /\ IsEvent("Sum") /\ phase = "idle"
 AllSteps == UNION {StepSet(d) : d \in SegmentDecoders \cup BitmapDecoders \cup BodyDecoders \cup StreamDecoders \cup
                       {"SegmentRequest::read", "TxKernel::read", "BlockHeader::read", "UntrustedBlockHeader::read", "MerkleProof::read",
                        "SegmentProof::read", "Hand::read", "Shake::read", "PeerAddrs::read", "PeerAddr::read", "Locator::read",
-                       "TxHashSetArchive::read", "util::from_hex"}}
+                       "TxHashSetArchive::read", "util::from_hex", "stratum::submit"}}
 StepsOK(e) == /\ Len(e.names) = Len(e.n) /\ Len(e.names) = Len(e.ok)
               /\ \A i \in 1..Len(e.names) : e.names[i] \in AllSteps /\ e.ok[i] <= e.n[i]
 TSteps == /\ IsEvent("Steps") /\ phase = "idle"
